@@ -793,6 +793,7 @@ impl SimRing {
                 // (and free the operation state) from now on.
                 track::release(req | regions::STATE_HOLD);
             }
+            crate::sched::notify(crate::sched::Reason::Ring(self.fd));
         }
         ev(SimEvent::Posted { seq, req, cqe, overflowed });
         self.posted.push(posted);
@@ -812,6 +813,7 @@ impl SimRing {
             if o.req != 0 && o.cqe.flags & abi::CQE_F_MORE == 0 {
                 track::release(o.req | regions::STATE_HOLD);
             }
+            crate::sched::notify(crate::sched::Reason::Ring(self.fd));
             self.word(self.layout.cq_tail).store(tail.wrapping_add(1), Ordering::Release);
             n += 1;
         }
